@@ -93,6 +93,7 @@ const (
 )
 
 type LTA struct {
+	stopsMemo map[*ssa.Function]bool
 	w         *World
 	procT     *types.Named
 	ctxT      *types.Named
@@ -373,12 +374,13 @@ func (a *LTA) analyze(fn *ssa.Function, args map[int]labs, st LSt, deferredPanic
 	report := func(kind, event string, st LSt, pos token.Pos) {
 		addFind(lfinding{Kind: kind, Stack: self + ":" + event, Pos: pos, State: st.String()})
 	}
-	absorb := func(callee *lsummary) {
+	absorbAs := func(callee *lsummary, as string) {
 		for _, f := range sortedFinds(callee.finds) {
-			f.Stack = canonStack(self, f.Stack)
+			f.Stack = canonStack(as, f.Stack)
 			addFind(f)
 		}
 	}
+	absorb := func(callee *lsummary) { absorbAs(callee, self) }
 
 	type seenK struct {
 		b, i int
@@ -647,7 +649,13 @@ func (a *LTA) analyze(fn *ssa.Function, args map[int]labs, st LSt, deferredPanic
 							st.MB = 2 // the pending restart buffer is being replayed
 						}
 						cs := a.analyze(callee, a.absArgs(fr, com), st, false)
-						absorb(cs)
+						// a stop function called from the restart function anywhere but on the exhausted-budget edge is a
+						// different path class than the (known) stop at the budget: it gets its own frame name
+						if a.stopsInbox(callee) && a.callOffBudgetEdge(fn, ins) {
+							absorbAs(cs, self+"[not-at-budget]")
+						} else {
+							absorb(cs)
+						}
 						ii := i
 						for _, o := range sortedOuts(cs.outs) {
 							if o.panic {
@@ -1047,4 +1055,67 @@ func (a *LTA) exportIf(r *Report, rule string, kinds []string, what string, keep
 				a.w.fnPos(a.w.Method("actor", "process", "Start")))
 		}
 	}
+}
+
+
+// stopsInbox: fn calls Inboxer.Stop itself (the stop function of the process machine).
+func (a *LTA) stopsInbox(fn *ssa.Function) bool {
+	if a.stopsMemo == nil {
+		a.stopsMemo = map[*ssa.Function]bool{}
+	}
+	if v, ok := a.stopsMemo[fn]; ok {
+		return v
+	}
+	res := false
+	for _, b := range fn.Blocks {
+		for _, in := range b.Instrs {
+			if c := callOf(in); c != nil && c.IsInvoke() && c.Method.Name() == "Stop" && strings.Contains(c.Value.Type().String(), "Inboxer") {
+				res = true
+			}
+		}
+	}
+	a.stopsMemo[fn] = res
+	return res
+}
+
+// callOffBudgetEdge: fn compares restarts with MaxRestarts and the call `in` is not confined to the edge on
+// which the budget is exhausted.
+func (a *LTA) callOffBudgetEdge(fn *ssa.Function, in ssa.Instruction) bool {
+	g := a.w.FG(fn)
+	exhausted, _ := g.CondEdges(func(v ssa.Value) (bool, bool) {
+		b, ok := v.(*ssa.BinOp)
+		if !ok {
+			return false, false
+		}
+		x, y := a.w.pathOf(b.X), a.w.pathOf(b.Y)
+		op := b.Op
+		if strings.HasSuffix(y, ".restarts") && strings.HasSuffix(x, ".MaxRestarts") {
+			x, y = y, x
+			switch op {
+			case token.LSS:
+				op = token.GTR
+			case token.GTR:
+				op = token.LSS
+			case token.LEQ:
+				op = token.GEQ
+			case token.GEQ:
+				op = token.LEQ
+			}
+		}
+		if !strings.HasSuffix(x, ".restarts") || !strings.HasSuffix(y, ".MaxRestarts") {
+			return false, false
+		}
+		switch op {
+		case token.EQL, token.GEQ, token.GTR:
+			return true, true
+		case token.NEQ, token.LSS, token.LEQ:
+			return false, true
+		}
+		return false, false
+	})
+	if len(exhausted) == 0 {
+		return false
+	}
+	n, ok := g.idx[in]
+	return ok && !g.OnlyVia(exhausted, n)
 }
